@@ -201,6 +201,9 @@ class Http3TransportWebsocket(AbstractMessagingTransport):
         except Exception as exception:
             self._incoming_frame_queue.put_nowait(RSocketTransportError())
             self._disconnect_event.set_exception(exception)
+        finally:
+            # the receiver learns that no more frames will arrive, however the websocket ended
+            self._incoming_frame_queue.put_nowait(RSocketTransportError())
 
     async def wait_for_disconnect(self):
         await self._disconnect_event
